@@ -19,7 +19,7 @@ def san_signature(pid, who, rc, err):
         return '%s:%s:ubsan:%s:%s:%s' % (pid, who, os.path.basename(m.group(1)), m.group(2), what.strip().replace(' ', '_'))
     m = re.search(r'(\S+?):(\d+): ([^\n]+?): Assertion `(.*?)\' failed', err)
     if m:
-        fn = re.sub(r'\(.*$', '', m.group(3)).split()[-1]
+        fn = re.sub(r'\W', '', re.sub(r'\(.*$', '', m.group(3)).split()[-1])
         return '%s:%s:assert:%s:%s:%s' % (pid, who, os.path.basename(m.group(1)), fn, re.sub(r'\W+', '_', m.group(4))[:50])
     m = None if 'ThreadSanitizer' in err and 'SUMMARY: ThreadSanitizer' in err else \
         re.search(r'(ERROR|WARNING): (AddressSanitizer|ThreadSanitizer|LeakSanitizer): ([\w-]+)', err)
@@ -43,7 +43,8 @@ def san_signature(pid, who, rc, err):
 
 
 def tsan_sig(pid, who, m):
-    return '%s:%s:tsan:%s:%s:%s' % (pid, who, m.group(1).strip().replace(' ', '-'), os.path.basename(m.group(2)), m.group(3))
+    # by function, not by line: line numbers move with every edit of the file
+    return '%s:%s:tsan:%s:%s:%s' % (pid, who, m.group(1).strip().replace(' ', '-'), os.path.basename(m.group(2)), m.group(4) or m.group(3))
 
 
 def tsan_reports(pid, who, err):
@@ -143,12 +144,36 @@ class Judge:
         self.tok_events = []      # per client token timeline
         self.frames_checked = 0
         self.flush = case_has_flush(case)
+        self.windows = None
 
     def v(self, sig, detail):
         if not any(s == sig for s, _ in self.viol):
             self.viol.append((sig, detail))
 
     # -------------------------------------------------------------------------------------------------------
+    def window(self, n):
+        """rows the simulated device sampled when frame n was captured (they follow the services with option dyn)"""
+        if self.windows is None:
+            self.windows = []
+            for ln in self.res.get('simlog', []):
+                f = ln.split()
+                if len(f) < 3 or f[2] not in ('O', 'U'):
+                    continue
+                kv = dict(x.split('=', 1) for x in f[1:] if '=' in x)
+                try:
+                    c0, c1 = kv['count'].split('+')
+                    s0, s1 = kv['start'].split('+')
+                    self.windows.append((int(kv['n']), (int(s0), int(c0), int(s1), int(c1))))
+                except (KeyError, ValueError):
+                    continue
+        w = None
+        for n0, win in self.windows:
+            if n0 <= n:
+                w = win
+            else:
+                break
+        return w
+
     def judge_processes(self):
         r = self.res
         err = r.get('daemon_err', '')
@@ -162,7 +187,7 @@ class Judge:
             self.v(sig, rest[-3500:])
         elif not r.get('daemon_alive_at_end', True) and not any('socket' in s for s in self.inconclusive):
             self.v('%s:daemon:exited:rc=%s' % (self.pid, r.get('daemon_rc')), 'daemon terminated before SIGTERM\n' + err[-2000:])
-        elif r.get('daemon_rc') not in (0, None) and r.get('daemon_alive_at_end') and not (ts and r.get('daemon_rc') == 97):
+        elif r.get('daemon_rc') not in (0, None) and r.get('daemon_alive_at_end') and not (ts and r.get('daemon_rc') in (97, 98)):
             self.v('%s:daemon:exit-status:%s' % (self.pid, r.get('daemon_rc')), err[-2000:])
         if r.get('daemon_alive_at_end') and r.get('probe_pid') != r.get('daemon_pid'):
             self.inconclusive.append('daemon alive but did not answer a connect request within 3 s (pid %s, got %s)' % (r.get('daemon_pid'), r.get('probe_pid')))
@@ -229,11 +254,12 @@ class Judge:
                                    % (name, prev + 1, n - 1, len(self.case['clients'])))
                         elif taint > 0 and not gap_ok:
                             self.classes.add('gap-after-stall')
-                ec, ed = self.ref.expect(n, G)
+                win = self.window(n)
+                ec, ed = self.ref.expect(n, G, win)
                 if nl != ec or dig != ed or not fmt:
                     kind = 'missing-lines' if nl < ec else ('extra-lines' if nl > ec else 'wrong-content')
                     self.v('%s:content:%s' % (P, kind), '%s frame %d granted=0x%x: got %d lines digest %016x fmt=%d, expected %d lines digest %016x\nexpected lines: %s'
-                           % (name, n, G, nl, dig, fmt, ec, ed, ' | '.join(self.ref.describe(n, G))))
+                           % (name, n, G, nl, dig, fmt, ec, ed, ' | '.join(self.ref.describe(n, G, win))))
                 prev = n
                 gap_ok = False
                 if taint > 0:
@@ -264,7 +290,7 @@ class Judge:
                 tok.append(('req0', e[1], e[2], e[5]))
             elif k == 'TOK':
                 gap_ok = True
-                tok.append(('req', e[1], e[2], e[3], e[6], e[7]))
+                tok.append(('req', e[1], e[2], e[3], e[7], e[8]))
             elif k == 'NOT0':
                 gap_ok = True
                 tok.append(('not0', e[1], e[2]))
@@ -446,7 +472,8 @@ class Judge:
                 start(t, how)
 
             if kind == 'lib':
-                in_req = False
+                req_hold = None         # hold started by the GRANTED callback inside the pending channel request
+                req_ev = False
                 for e in tl:
                     k = e[0]
                     if k == 'req0':
@@ -454,12 +481,21 @@ class Judge:
                         if e[3]:
                             asked_t = e[1]
                             asked_any = True
-                            released_t = None
-                        in_req = True
+                        released_t = None
+                        req_hold = None
+                        req_ev = False
                     elif k == 'req':
-                        in_req = False
-                        if e[4] == 1:
+                        if e[4] == 1 and not req_ev:
                             granted(e[2], 'TOKEN_CNF')
+                        elif e[4] != 1 and req_ev:
+                            # TOKEN_IND overtaken by the request: the confirmation says the token is not held
+                            self.classes.add('token-grant-ambiguous')
+                            if req_hold is not None and req_hold in holds:
+                                holds.remove(req_hold)
+                            if hold is req_hold:
+                                hold = None
+                        req_hold = None
+                        req_ev = False
                     elif k == 'not0':
                         if e[2] & (CHN_TOKEN | CHN_RELEASE):
                             stop(e[1])
@@ -471,8 +507,11 @@ class Judge:
                         if mask & EV_GRANTED:
                             if ctx == 'r':
                                 granted(t, 'TOKEN_IND')
-                            elif ctx in ('q', 'c'):
-                                pass        # the TOKEN_CNF decides
+                            elif ctx == 'q':
+                                # the callback runs inside vbi_proxy_client_channel_request(), before it returns
+                                req_ev = True
+                                granted(t, 'TOKEN_CNF')
+                                req_hold = hold
                             else:
                                 self.classes.add('token-grant-ambiguous')
                         if mask & EV_RECLAIMED:
@@ -484,7 +523,13 @@ class Judge:
                         asked_t = None
                         released_t = None
             else:
+                tl2 = []
                 for e in tl:
+                    if e[0] == 'send' and e[2].get('parts'):
+                        tl2.extend(('send', e[1], pm) for pm in e[2]['parts'])
+                    else:
+                        tl2.append(e)
+                for e in tl2:
                     k = e[0]
                     if k == 'send':
                         meta = e[2]
